@@ -153,7 +153,13 @@ def gen_multi(seed_i, mode, tier):
 
 
 def judge_multi(scn, log=None):
-    solo = multi.run_solo(scn)
+    try:
+        solo = multi.run_solo(scn)
+    except multi.SoloWriterFailed as ex:
+        e = ex.args[0]
+        return [{"oracle": "C06.control.writer_completes",
+                 "detail": f"the writer raised {e} on a well-formed message list while preparing a reader's file",
+                 "sig": f"C06.control.writer_completes|{e[0]}"}], {"switches": 0, "points": [], "trace": [], "steps": 0}
     if scn["mode"] == "op":
         inter, stats = multi.run_op_level(scn, log=log)
     else:
